@@ -147,7 +147,7 @@ struct Pair {
 fn key_fns() -> &'static Vec<u32> {
     use std::sync::OnceLock;
     static C: OnceLock<Vec<u32>> = OnceLock::new();
-    C.get_or_init(|| static_corpus().funcs.iter().filter(|d| matches!(d.family, "key" | "meth" | "pat")).map(|d| d.id).collect())
+    C.get_or_init(|| static_corpus().funcs.iter().filter(|d| matches!(d.family, "key" | "meth" | "pat" | "names")).map(|d| d.id).collect())
 }
 
 /// clamp unsigned leaves back into their type after digit re-splitting
